@@ -22,7 +22,9 @@ FLOATS = ['0', '1.5', '.5', '5.', '.', '1e5', '1E-5', '1e', 'e5', '1e+', '1_0.5'
           '-inf', '+INF', 'infinit', '1e309', '-1e309', '1e308', '1.7976931348623157e308', '1.7976931348623159e308', '1e-400', '4.9e-324', '0x1p3',
           '1,000.00', '$5', '1 000', '１２.５', '', '+', '-.5e-3', '000001e300', '0.' + '0' * 40 + '1e340', '9' * 320]
 ENUM_MEMBERS = ['Single', 'MarriedFilingJointly', 'HeadOfHousehold']
-ENUMS = ['Single', 'single', 'Single ', ' Single', 'Singl', 'SINGLE', 'MarriedFilingJointly', 'Married Filing Jointly', '', ' ', 'None', 'Single\n']
+ENUMS = ['Single', 'single', 'Single ', ' Single', 'Singl', 'SINGLE', 'MarriedFilingJointly', 'Married Filing Jointly', '', ' ', 'None', 'Single\n',
+         # names that are attributes of an Enum class without being members
+         'mro', 'name', 'value', '__members__', '__class__', '__doc__', '__init__', '_member_map_', '_value2member_map_', '__module__']
 SSNS = ['123-45-6789', '123456789', '123-45-678', '1234567890', '12-345-6789', '---123456789', 'abc-de-fghi', '', '123 45 6789', '１２３456789']
 ACCTS = ['12345', 'A-1', '', 'abc def', '1' * 17, '1' * 18, 'ok_no', 'Ünï', '12-34']
 ROUT = ['011000015', '123456789', '211111111', '331111111', '01100001', '0110000155', 'abcdefghi', '']
